@@ -70,6 +70,7 @@ def dispatch (line : String) : String :=
   | "opt" :: rest => handleOpt rest
   | "names" :: rest => handleNames rest
   | "cmp24" :: rest => handleCmp24 rest
+  | "cmp24m" :: rest => handleCmp24m rest
   | "render" :: rest => handleRender rest
   | "hmap" :: rest => handleHMap rest
   | "assign" :: rest => handleAssign rest
